@@ -219,7 +219,10 @@ def rejection_cases(rng, base_programs):
             out.append(("bad-update-target", " ".join(t2), " ".join(t2[max(0, i - 6):i + 4])))
     fixed = [("unterminated-comment", "var a = 1; /* never closed"), ("unterminated-comment", "1 + /* x \n 2"), ("unterminated-comment", "var y = 5; y /*/ + 1"),
              ("unterminated-comment", "1 /*/"), ("unterminated-comment", "/*/"), ("unterminated-comment", "1 /* * /"), ("unterminated-comment", "/* // */ 1 /* //\n"), ("unterminated-regex", "var r = /abc"),
-             ("unterminated-regex", "var r = /a[/; 1"), ("unterminated-string", "var s = 'abc"), ("unterminated-string", "var s = \"abc\n\";"),
+             ("unterminated-regex", "var r = /a[/; 1"), ("unterminated-regex", "var list = [10, 20];\nvar digits = /[0-9/;\nvar half = list[1] / 2;\ntypeof half\n"),
+             ("unterminated-regex", "var r = /[a-z\n]/;"), ("unterminated-regex", "var r = /ab\nc/;"), ("unterminated-regex", "var a = [1]; var x = /[/\n; a[0] / 2;"),
+             ("unterminated-regex", "var r = /a\\\nb/;"), ("unterminated-regex", "var r = /(?:a|[b\n)]/; r / 1"), ("unterminated-regex", "var q = 1; var r = /[^\n]/.test('a'); q[0] / 1"),
+             ("unterminated-regex", "var r = /x/\ng; /[/\n/"), ("unterminated-string", "var s = 'a\nb'; var t = 'c';"), ("unterminated-string", "var s = \"a\rb\";"), ("unterminated-string", "var s = 'abc"), ("unterminated-string", "var s = \"abc\n\";"),
              ("bad-assign-target", "1 = 2"), ("bad-assign-target", "a + b = 3"), ("bad-assign-target", "f() = 1"), ("bad-assign-target", "(a, b) = 1"),
              ("bad-update-target", "a++ = 2"), ("bad-update-target", "++5"), ("bad-update-target", "5--"), ("bad-update-target", "++f()"),
              ("bad-assign-target", "'s' += 1"), ("bad-assign-target", "this = 1"), ("bad-assign-target", "true = 1"), ("bad-assign-target", "-a = 1"),
